@@ -31,10 +31,10 @@ type DocScript struct {
 		} `json:"hops"`
 		Dst []int `json:"dst"`
 	} `json:"runs"`
-	RTTs        []int             `json:"rtts"`
-	Enrich      bool              `json:"enrich"`
-	SkipPrivate bool              `json:"skip_private"`
-	DNS         wire.StrMap       `json:"dns"` // address string -> behaviour (see dnsAnswer)
+	RTTs        []int       `json:"rtts"`
+	Enrich      bool        `json:"enrich"`
+	SkipPrivate bool        `json:"skip_private"`
+	DNS         wire.StrMap `json:"dns"` // address string -> behaviour (see dnsAnswer)
 }
 
 func init() { kinds["doc"] = runDoc }
